@@ -25,9 +25,10 @@ EXPLANATION = (
     "and the body (multipart bodies parsed with the announced boundary) are compared with an RFC 9110 oracle written independently of the code: (a) the arithmetic "
     "function on every (size 1..9, first, last/suffix 0..12) case; (b) ~150 Range header values x file sizes through the whole path: absent / malformed -> 200 with the "
     "whole content (F25a: undecodable bytes), single satisfiable -> 206 with exactly the bytes (F25b: suffix longer than the file), several -> multipart in request order "
-    "with matching Content-Length, none satisfiable -> 416 with `bytes */size`, and never an exception; (c) small and large transport buffer sizes. Known findings keep "
-    "their own rules with semantic construct labels: F25c (several ranges, none satisfiable -> ValueError), F25e (empty range-set -> ValueError), F25d (int() accepts "
-    "sign / underscore -> malformed header honoured), F25g (white space inside a range-spec accepted; pinned by the repository's RangeTests.test_rangeWithSpace), F25f (a part boundary pushing the chunk past bufferSize -> read() with a negative length -> ValueError). "
+    "with matching Content-Length, none satisfiable -> 416 with `bytes */size`, and never an exception; (c) small and large transport buffer sizes. The findings keep "
+    "their own rules with semantic construct labels; FIXED (each revert is a mutant reported on that construct): F25c (several ranges, none satisfiable -> ValueError), F25e "
+    "(empty range-set -> ValueError), F25d (int() accepted sign / underscore -> malformed header honoured), F25f (a part boundary pushing the chunk past bufferSize -> read() "
+    "with a negative length -> ValueError); KNOWN: F25g (white space inside a range-spec accepted; pinned by the repository's RangeTests.test_rangeWithSpace). "
     "Not decided: file size 0, HEAD (the Range header is ignored there), real file-system errors."
 )
 RULE_KINDS = {
